@@ -26,7 +26,7 @@ def dflt (name : Str) (o : Obj) : R (AV × Obj) :=
 def truthy : AV → Bool
   | .str s => !s.isEmpty
   | .strs l => !l.isEmpty
-  | .dec c _ => c != 0
+  | .dec _ c _ => c != 0
   | .none => false
 
 def differs (a b : AV) : Bool := a != b
